@@ -67,6 +67,17 @@ Fixpoint until_semi_nl (l : str) : option (str * str) :=
   | _ => None
   end.
 
+(** [. ident]* after a first identifier *)
+Fixpoint p_path (n : nat) (acc : list str) (l : str) : list str * str :=
+  match n with
+  | O => (acc, l)
+  | S n' =>
+      match p_lit (s ".") l with
+      | Some r => match p_ident r with Some (j, r') => p_path n' (acc ++ [j]) r' | None => (acc, l) end
+      | None => (acc, l)
+      end
+  end.
+
 Fixpoint p_type (fuel : nat) (l : str) {struct fuel} : option (tstype * str) :=
   match fuel with
   | O => None
@@ -133,9 +144,35 @@ with p_atom (fuel : nat) (l : str) {struct fuel} : option (tstype * str) :=
             else if str_eqb i (s "undefined") then Some (TUndefined, r)
             else if str_eqb i (s "never") then Some (TNever, r)
             else if str_eqb i (s "unknown") then Some (TUnknown, r)
-            else Some (TVar i pos0, r)
+            else
+              (* qualified name N.K / N.K1.K2 and type arguments F<A, B> (resolvers file) *)
+              let '(path, r1) := p_path 3 [i] r in
+              let base := match path with
+                          | [a; b] => TNs a b
+                          | [a; b; c] => TNs3 a b c
+                          | _ => TVar i pos0
+                          end in
+              if peek_lit (s "<") r1 then
+                match p_lit (s "<") r1 with
+                | Some r2 => match p_targs f r2 with Some (args, r3) => Some (TFunc base args, r3) | None => None end
+                | None => None
+                end
+              else Some (base, r1)
         | None => None
         end
+  end
+with p_targs (fuel : nat) (l : str) {struct fuel} : option (list tstype * str) :=
+  match fuel with
+  | O => None
+  | S f =>
+      match p_type f l with
+      | Some (t, r) =>
+          match p_lit (s ",") r with
+          | Some r' => match p_targs f r' with Some (ts, r'') => Some (t :: ts, r'') | None => None end
+          | None => match p_lit (s ">") r with Some r' => Some ([t], r') | None => None end
+          end
+      | None => None
+      end
   end
 with p_fields (fuel : nat) (l : str) {struct fuel} : option (list tsfield * str) :=
   match fuel with
@@ -280,3 +317,68 @@ Definition parse_schema_text (raw_local : str -> bool) (text : str) : option (li
 (** parsed declarations as namespace members (keyword and positions are irrelevant to the denotation) *)
 Definition as_member (d : str * str * tstype) : option member :=
   let '(n, l, b) := d in Some (mkMember (mkKw [] pos0) (mkId n pos0) l None (BType b)).
+
+(** the local names whose declaration body is a scalar's verbatim TypeScript text *)
+Definition raw_local (doc : tsdoc) (l : str) : bool :=
+  existsb (fun td => match td with
+                     | TDScalar _ _ n _ _ => str_eqb l (iname n) || str_eqb l (TMP_PREFIX ++ iname n)
+                     | _ => false
+                     end) (typedefs doc).
+
+(** ** the resolvers declaration: the module aliases [type T = …;] that follow the two helper
+    declarations, and the body of [export type R<Context> = …;] *)
+Fixpoint skip_line (l : str) : str := match l with c :: r => if N.eqb c 10 then r else skip_line r | [] => [] end.
+
+Fixpoint p_aliases (n fuel : nat) (l : str) : option (list (str * tstype) * str) :=
+  match n with
+  | O => None
+  | S n' =>
+      match p_kw (s "type") l with
+      | Some l1 =>
+          match p_ident l1 with
+          | Some (name, l2) =>
+              match p_lit (s "=") l2 with
+              | Some l3 =>
+                  match p_type fuel l3 with
+                  | Some (t, l4) =>
+                      match p_lit (s ";") l4 with
+                      | Some l5 => match p_aliases n' fuel l5 with Some (r, rest) => Some ((name, t) :: r, rest) | None => None end
+                      | None => None
+                      end
+                  | None => None
+                  end
+              | None => None
+              end
+          | None => None
+          end
+      | None => Some ([], l)
+      end
+  end.
+
+Definition parse_resolvers_text (text : str) : option (list (str * tstype) * tstype) :=
+  match find_from (s "type __TypeResolver") (S (length text)) text with
+  | Some l =>
+      match p_aliases (length text) (length text) (skip_line l) with
+      | Some (aliases, l1) =>
+          match p_kw (s "export") l1 with
+          | Some a => match p_kw (s "type") a with
+            | Some b => match p_ident b with
+              | Some (_, c) => match p_lit (s "<") c with
+                | Some d => match p_ident d with
+                  | Some (_, e) => match p_lit (s ">") e with
+                    | Some f0 => match p_lit (s "=") f0 with
+                      | Some g => match p_type (length text) g with
+                        | Some (root, h) => match p_lit (s ";") h with Some _ => Some (aliases, root) | None => None end
+                        | None => None end
+                      | None => None end
+                    | None => None end
+                  | None => None end
+                | None => None end
+              | None => None end
+            | None => None end
+          | None => None
+          end
+      | None => None
+      end
+  | None => None
+  end.
